@@ -259,7 +259,7 @@ impl Gate {
         out.tags.push(st.layout_tag());
         let Some(mut pkg) = self.compile(&src, out, &format!("row/{}", st.roto)) else { return };
         let mut m = Mon::new(args.seed, &st.roto, st.desc.has_zst_val());
-        let nvals = if args.thorough() { st.n_edges + 64 } else { (st.n_edges + 4).min(24) };
+        let nvals = if args.thorough() { st.n_edges + 500 } else { st.n_edges + 16 };
         let mut rows = Vec::new();
         for t in &self.cat {
             let class = classify(&st.desc, &t.desc);
@@ -280,7 +280,7 @@ impl Gate {
                     .set("source", src.as_str());
                 self.judge(out, &mut m, g, same, &class, what, route, hostev, nvals);
             }
-            out.tags.push(format!("gate:{}", class));
+            out.tags.push(format!("gate:{}", super::classify_coarse(&st.desc, &t.desc)));
         }
         self.flush(out, m);
         out.sample = Some(J::obj().set("kind", "row").set("term", term_json(st)).set("source", src).set("requests", J::Arr(rows)));
@@ -459,6 +459,7 @@ impl Gate {
             for (d, g) in reqs {
                 let class = format!("filtermap/{}", classify(&truth, &d));
                 out.tags.push(format!("gate:filtermap:accept={},reject={}:{}", a.tag(), r.tag(), g.kind()));
+                out.tags.push(format!("gate:filtermap/{}", super::classify_coarse(&truth, &d)));
                 let what = J::obj().set("filtermap", name.as_str()).set("true_type", truth.roto()).set("requested", d.roto()).set("source", src.as_str());
                 self.judge(out, &mut m, g, d == truth, &class, what, "gate/filtermap", &[], 24);
             }
